@@ -101,16 +101,18 @@ def gen_history(rng, usedb=None, nops=(3, 10), sched=None, allow_rule_edits=True
 
 # ------------------------------------------------------------------ running
 
-def run_impl(drv, lines, wd, timeout=60, env=None):
+def run_impl(drv, lines, wd, timeout=60, env=None, keepdb=False, name="scenario"):
     os.makedirs(wd, exist_ok=True)
-    sp = os.path.join(wd, "scenario.txt")
+    sp = os.path.join(wd, name + ".txt")
     open(sp, "w").write("\n".join(lines) + "\n")
-    try:
-        os.unlink(os.path.join(wd, "build.db"))
-    except OSError:
-        pass
+    if not keepdb:
+        for f in ("build.db", "build.db-journal"):
+            try:
+                os.unlink(os.path.join(wd, f))
+            except OSError:
+                pass
     rc, out, err = vlib.sh([drv, sp, wd], timeout=timeout, env=env)
-    tp = os.path.join(wd, "impl.txt")
+    tp = os.path.join(wd, name + ".impl.txt")
     open(tp, "w").write(out)
     return rc, out.splitlines(), err, sp, tp
 
@@ -147,10 +149,10 @@ def split_builds(lines):
     for l in lines:
         t = l.split(" ")
         if t[0] == "build":
-            cur = dict(hdr=l, events=[], result=None, epoch=None, deps={}, other=[], key=int(t[2]))
+            cur = dict(hdr=l, events=[], result=None, epoch=None, deps={}, other=[], db=[], key=int(t[2]))
             builds.append(cur)
         elif t[0] == "restart":
-            builds.append(dict(hdr="restart", events=[], result=None, epoch=None, deps={}, other=[], key=None))
+            builds.append(dict(hdr="restart", events=[], result=None, epoch=None, deps={}, other=[], db=[], key=None))
             cur = None
         elif cur is None:
             continue
@@ -160,6 +162,8 @@ def split_builds(lines):
             cur["epoch"] = int(t[1])
         elif t[0] == "deps":
             cur["deps"][int(t[1])] = [int(x) for x in t[2:]]
+        elif t[0] in ("dbrow", "dbepoch"):
+            cur["db"].append(l)
         elif t[0] in ("need", "valid", "create", "start", "prior", "provide", "avail", "complete"):
             cur["events"].append(l)
         else:
@@ -167,7 +171,7 @@ def split_builds(lines):
     return builds
 
 
-def canon_build(b, with_deps_order=True):
+def canon_build(b, with_deps_order=True, only_keys=None):
     """Canonical observations of one build: per task key the sequence of its callbacks with the provide events
     sorted (delivery order is unspecified), the result, the epoch and the recorded dependencies."""
     per = {}
@@ -190,9 +194,12 @@ def canon_build(b, with_deps_order=True):
     out.append(str(b["result"]))
     out.append("epoch %s" % b["epoch"])
     for k in sorted(b["deps"]):
+        if only_keys is not None and k not in only_keys:
+            continue        # the implementation loads results lazily after a restart: rules it has not looked at are not dumped
         d = b["deps"][k]
         out.append("deps %d %s" % (k, " ".join(map(str, d if with_deps_order else sorted(d)))))
-    out += sorted(x for x in b["other"] if x.startswith(("cycle ", "ORDER-MISMATCH", "LATE-CALLBACK", "error", "leftover")))
+    out += b["db"]
+    out += sorted(x for x in b["other"] if x.startswith(("cycle ", "ORDER-MISMATCH", "LATE-CALLBACK", "error", "leftover", "dberror", "attach-error")))
     return out
 
 
@@ -201,6 +208,21 @@ def canon(lines, with_deps_order=True):
     for b in split_builds(lines):
         out += canon_build(b, with_deps_order)
     return out
+
+
+def canon_pair(impl_lines, model_lines):
+    """Canonical observations of both sides, build by build; the model's in-memory dependency dump is restricted to the
+    rules the implementation has loaded (lazy loading from the database is unobservable to a client)."""
+    bi, bm = split_builds(impl_lines), split_builds(model_lines)
+    a, b = [], []
+    for i in range(max(len(bi), len(bm))):
+        x = bi[i] if i < len(bi) else None
+        y = bm[i] if i < len(bm) else None
+        if x is not None:
+            a += canon_build(x)
+        if y is not None:
+            b += canon_build(y, only_keys=set(x["deps"]) if x is not None else None)
+    return a, b
 
 
 # ------------------------------------------------------------------ oracles on the implementation trace
